@@ -379,6 +379,7 @@ impl CompactionWorker {
                     new_level = compaction_manifest.level() + 1,
                     level_summary = db_fields_guard.version_set.level_summary()
                 );
+                compaction_manifest.release_inputs(&mut db_fields_guard.version_set);
             } else {
                 let compaction_result = CompactionWorker::compact_tables(
                     db_state,
